@@ -284,6 +284,14 @@ Definition arg_names (l : list arg) : list str := map (fun a => i_txt (a_name a)
    of a fn WITH a body (trait fn declarations have none, so their parameters are not checked),
    E0592 duplicate inherent fns, the keyword `Self` as a variant name, and E0004 for the
    arm-less `match self {}` on `&Request` when no variant is left. *)
+(* The fourth clause is the name-collision rule for the identifiers the expansion itself binds:
+   the client fn binds `ctx` next to the RPC arguments, so an argument called `ctx` - of ANY type,
+   `tarpc::context::Context` included - is a duplicate parameter (E0415). That is the only thing
+   that keeps the server arm `Variant { ctx } => Trait::m(self.service, ctx, ctx)` (where the
+   argument shadows the request's context) from compiling. The other identifiers the expansion
+   uses (context, req, request, resp, msg, service, new_client, config, transport, stub) are
+   either in a body-less declaration, bound after their last use, or not variables at all; Part 4
+   gives them their real scoping, and C17_glue_correct covers them. *)
 Definition rustc_accepts (g : generated) : bool :=
   nodupb (map v_name (g_variants g))
   && nodupb (map rv_name (g_rvariants g))
@@ -513,6 +521,13 @@ Definition valid_call (s : service) (c : call) : option method :=
   | None => None
   end.
 
+(* scripted argument values by type: an argument of type Context (a relay forwarding a caller's
+   context as payload) is the context with deadline marker n and trace id n; everything else is
+   data. This is what makes a collision between an argument and the generated `ctx` type-check. *)
+Definition val_of_ty (t n : N) : value := if t =? ty_context then VCtx n n else VData n.
+Definition vals_of (args : list arg) (ns : list N) : list value :=
+  map (fun p => val_of_ty (a_ty (fst p)) (snd p)) (combine args ns).
+
 Definition data_of (v : value) : N := match v with VData n => n | VCtx d _ => d end.
 Definition ctx_of (v : value) : N * N := match v with VCtx d t => (d, t) | VData n => (n, n) end.
 
@@ -529,12 +544,12 @@ Definition model_run (s : service) (g : generated) (c : call) : option run_obs :
   | None => None
   | Some x =>
       let '(m, (d, t), vs) := c in
-      let name := match client_request g (i_txt m) (VCtx d t) (map VData vs) with
+      let name := match client_request g (i_txt m) (VCtx d t) (vals_of (m_args x) vs) with
                   | Some (_, r) => request_name g r
                   | None => None
                   end in
       Some (run_of_outcome name (ret_ty x)
-              (client_call g (impl_of s) (i_txt m) (VCtx d t) (map VData vs)))
+              (client_call g (impl_of s) (i_txt m) (VCtx d t) (vals_of (m_args x) vs)))
   end.
 
 (* the wrong-variant probe: the first enabled method, when there are at least two response
@@ -562,7 +577,7 @@ Definition expected_run (s : service) (x : method) (c : call) : run_obs :=
   let '(m, ctx, vs) := c in
   ([(i_txt (m_name x), ctx, vs)],
    [display (s_name s) ++ lit "." ++ display (m_name x)],
-   Some (enc (ret_ty x) (impl_of s (i_txt (m_name x)) (VCtx (fst ctx) (snd ctx)) (map VData vs)))).
+   Some (enc (ret_ty x) (impl_of s (i_txt (m_name x)) (VCtx (fst ctx) (snd ctx)) (vals_of (m_args x) vs)))).
 
 Definition log_eqb (a b : str * (N * N) * list N) : bool :=
   let '(m, (d, t), vs) := a in let '(m', (d', t'), vs') := b in
